@@ -383,6 +383,9 @@ type runner struct {
 	sh      *shadow // classification of failures only, see shadow_test.go
 	// forced: known-finding key of a step that was deliberately not executed
 	forced string
+	// lastSeekErr: text of the error of the most recent rejected Seek (a Seek that must
+	// fail may fail for another reason, e.g. in its implicit flush)
+	lastSeekErr string
 }
 
 func run(c Case) kit.Result {
@@ -392,7 +395,7 @@ func run(c Case) kit.Result {
 	res := r.safeExec()
 	if res.Err != nil {
 		res.Known = r.classify()
-		if r.forced == "" && strings.Contains(res.Err.Error(), "digest too large: identity digest") {
+		if r.forced == "" && strings.Contains(res.Err.Error()+r.lastSeekErr, "digest too large: identity digest") {
 			// an operation or the read-back failed on an over-long identity CID
 			res.Known = "identity-link-oversize"
 		}
@@ -581,6 +584,7 @@ func (r *runner) exec() kit.Result {
 					if err != nil {
 						next = append(next, s)
 						r.classes["seek-rejected"] = true
+						r.lastSeekErr = err.Error()
 					}
 					continue
 				}
@@ -742,8 +746,8 @@ func (r *runner) exec() kit.Result {
 
 var spec = kit.Spec[Case]{
 	Prop: "C10", Name: "main",
-	Rule: "initial file 0..2 KiB (4 KiB thorough) from balanced/trickle importers or a single pb/raw node (raw/pb leaves, v0/v1, inline-identity), modifier width 2..8, splitter 4..64, RawLeaves inherit/true/false; <=20 ops Write/WriteAt(off in [0,size+64], weighted to 0, EOF, cursor, inside the pending buffer, beyond EOF)/Seek(3 whences + bad whence)/Read/CtxReadFull/Truncate/Size/Sync/GetNode + final GetNode; Size() compared after every op; oracle = set of admissible (content,cursor) states; non-trivial = a WriteAt starting inside the data of the immediately preceding unflushed write(s), or a non-empty write starting beyond EOF, or Truncate to 0<s<size of a file longer than width x chunk bytes",
-	Quick: 2500, Thorough: 12000,
+	Rule: "initial file 0..2 KiB (4 KiB thorough) from balanced/trickle importers or a single pb/raw node (raw/pb leaves, v0/v1, inline-identity), modifier width 2..8 (= the width the file was built with), splitter 4..64, RawLeaves inherit/true/false; <=20 ops Write/WriteAt(off in [0,size+64], weighted to 0, EOF, cursor, inside the pending buffer, beyond EOF)/Seek(3 whences + bad whence)/Read/CtxReadFull/Truncate/Size/Sync/GetNode + final GetNode; Size() compared after every op; oracle = set of admissible (content,cursor) states; non-trivial = a WriteAt starting inside the data of the immediately preceding unflushed write(s), or a non-empty write starting beyond EOF, or Truncate to 0<s<size of a file longer than width x chunk bytes",
+	Quick: 6000, Thorough: 20000,
 	Gen: gen, Run: run, Journal: true,
 }
 
